@@ -112,8 +112,42 @@ theorem receive_marks_before_validation (ext : Ext) (cfg : Cfg) (st : Store) (le
   obtain ⟨m, hp, hw⟩ := C15.receiveMessage_writes h
   exact ⟨m, (parse_iff_decode _ _).mp hp, hw⟩
 
-/-! non-vacuity: the acceptance predicate is satisfiable (a non-module message in a small concrete state
-    under the toy Ext of C01) and refutable (the same state with receiving paused). -/
-example : sendPaused [(Key.sendPaused, .flag true)] = true := by decide
+/-! ### non-vacuity: concrete accepted and rejected receives -/
+
+/-- a toy world: "recovery" returns the first two signature bytes, bech32 is the identity. -/
+def toyExt : Ext := ⟨fun b => zeros 12 ++ b, fun _ sig => some (sig.take 2), fun b => some b, fun b => some b, id,
+  fun a b => a == b, fun _ => true, id⟩
+def toyCfg : Cfg := ⟨List.replicate 20 7, [99]⟩
+def toyLed : Ledger := ⟨[117], [], [], []⟩
+
+/-- one enabled attester (hex "0101"), threshold 1, nothing paused, a messenger and a token pair for domain 0. -/
+def toySt : Store :=
+  Store.applyAll []
+    [(Key.sendPaused, some (.flag false)), (Key.burnPaused, some (.flag false)), (Key.threshold, some (.threshold 1)),
+     (Key.attester [48, 49, 48, 49], some (.attester [48, 49, 48, 49])),
+     (Key.messenger 0, some (.messenger 0 (List.replicate 32 5))),
+     (Key.tokenPair toyExt 0 (List.replicate 32 6), some (.pair 0 (List.replicate 32 6) [117]))]
+
+/-- a message for somebody else (recipient 32×3), nonce 7, no destination caller, empty body. -/
+def toyMsg : Bytes := encodeMessage ⟨0, 0, 4, 7, List.replicate 32 2, List.replicate 32 3, zeros 32, []⟩
+/-- a burn message for the module: token 32×6, recipient 12 zeros ++ 20×8, amount 1000, from the registered messenger. -/
+def toyBurn : Bytes :=
+  encodeMessage ⟨0, 0, 4, 8, List.replicate 32 5, toyCfg.modulePadded, zeros 32,
+    encodeBurn ⟨0, List.replicate 32 6, zeros 12 ++ List.replicate 20 8, 1000, List.replicate 32 9⟩⟩
+
+def isOk {α} (r : R α) : Bool := match r with | .ok _ => true | .error _ => false
+theorem isOk_iff {α} (r : R α) : isOk r = true ↔ ∃ o, r = .ok o := by
+  cases r <;> simp [isOk]
+
+example : Accept toyExt toyCfg toySt toyLed [1] toyMsg (List.replicate 65 1) :=
+  (receive_ok_iff toyExt toyCfg toySt toyLed [1] toyMsg _ (by decide)).mp ((isOk_iff _).mp (by decide +kernel))
+/-- … and an accepted mint (all of `MintOK` holds). -/
+example : Accept toyExt toyCfg toySt toyLed [1] toyBurn (List.replicate 65 1) :=
+  (receive_ok_iff toyExt toyCfg toySt toyLed [1] toyBurn _ (by decide)).mp ((isOk_iff _).mp (by decide +kernel))
+/-- the same messages are refused when signed by a key that is not enabled, and when receiving is paused. -/
+example : ¬ Accept toyExt toyCfg toySt toyLed [1] toyMsg (List.replicate 65 2) := fun h =>
+  absurd ((isOk_iff _).mpr ((receive_ok_iff toyExt toyCfg toySt toyLed [1] toyMsg _ (by decide)).mpr h)) (by decide +kernel)
+example : ¬ Accept toyExt toyCfg (toySt.set Key.sendPaused (.flag true)) toyLed [1] toyBurn (List.replicate 65 1) := fun h =>
+  absurd ((isOk_iff _).mpr ((receive_ok_iff toyExt toyCfg _ toyLed [1] toyBurn _ (by decide)).mpr h)) (by decide +kernel)
 
 end Cctp.C03
